@@ -22,6 +22,7 @@ type Replica struct {
 	History bool              `json:"history,omitempty"` // run a prelude in the same process first: an older version of the tree loaded and rendered, failing renders, string evaluations
 	Soak    int               `json:"soak,omitempty"`    // with History: the prelude ends with this many repetitions of operations that panic inside textwire (the caller recovers, as net/http does) and of ordinary ones
 	Rate    int64             `json:"rate,omitempty"`    // simulated nanoseconds per step (0 = 1000): a slower or faster machine
+	MTime   uint64            `json:"mtime,omitempty"`   // seed of the modification times the disk reports (0 = all files the same instant)
 	Clock   int64             `json:"clock"`             // unix seconds of the simulated clock base
 	Rand    int64             `json:"rand"`              // seed of the simulated global math/rand stream
 }
